@@ -21,9 +21,10 @@ import copy
 import os
 from vlib import core
 
-# flip to True once HashTable::operator=(const&) completes the copy before the destination changes
-# (candidate patch: notes/fix-hashtable-copy-assign-alias.diff)
-ANCESTOR_COPY_REPAIRED = os.environ.get("HASHTREE_ANCESTOR_COPY", "0") == "1"
+# HashTable::operator=(const&) completes the copy before the destination changes since the /repo commit
+# "fix: HashTable copy assignment completes the copy before changing the destination"
+# (notes/fix-hashtable-copy-assign-alias.diff), so descendant <- ancestor copies are generated.
+ANCESTOR_COPY_REPAIRED = os.environ.get("HASHTREE_ANCESTOR_COPY", "1") == "1"
 
 KEYS = [(97,), (98,), (99,), (), (97, 0, 98), (100,), (200, 1)]
 
@@ -210,6 +211,17 @@ WITNESSES = [
     "httree g/~/97;g/~/98;g/97/99;g/97/100;t/97.99/5;c/~/97",
     "httree g/~/97;g/97/98;g/97.98/99;g/97.98.99/100;t/97.98.99/3;a/~/97.98;m/99/99.100",
     "httree g/~/97;g/~/98;g/~/99;g/~/100;g/~/-;g/98/97;g/98/98;g/98/99;t/98.98/4;c/~/98;c/~/98",
+    # repaired defect: child.kids = ancestor.kids copied an already emptied destination
+    "httree g/~/97;g/97/99;g/97.99/100;t/97/7;c/97.99/~",
+    "httree g/~/97;g/~/98;g/97/99;t/97.99/2;a/97.99/~;c/98/~",
+]
+
+# recorded finding (known-findings.txt, key related-merge): operator+= between a table and a table stored
+# inside its own values (or around it) changes the destination while it iterates over the source
+RELATED_MERGE_PROBES = [
+    "httree g/~/97;g/97/97;g/97/98;p/~/97",
+    "httree g/~/97;g/97/97;g/97/98;g/97/99;q/~/97",
+    "httree g/~/97;g/~/98;g/97/99;p/97/~",
 ]
 
 
@@ -252,4 +264,10 @@ def run(ctx, drv=None):
             what = "lookup by key and iteration by index disagree" if "LOOKUP-MISMATCH" in a else "nested HArray differs from the insertion-ordered-map value semantics"
             ctx.fail("hash-tree", "%s: %s -> %s expected %s" % (what, l[:300], a[-200:], e[-200:]),
                      {"line": l, "impl": a, "expected": e})
+    po, pf = core.run_lines(h, RELATED_MERGE_PROBES)
+    for l, a in zip(RELATED_MERGE_PROBES, po):
+        if a != interp(l):
+            ctx.fail("related-merge", "operator+= between an HArray and an HArray stored inside its own values (or around it): %s -> %s, value semantics %s"
+                     % (l, a[-120:], interp(l)[-120:]), {"line": l, "impl": a, "expected": interp(l)})
+    ctx.count("related-merge-probe", len(RELATED_MERGE_PROBES), len(RELATED_MERGE_PROBES))
     ctx.count("harray-of-recursive-owning-type", len(lines), n_alias, {"stream": "hash-tree", "input": lines[0], "impl": impl[0][-120:]})
